@@ -134,6 +134,26 @@ def run_case(case, tier):
             return sources.no_water(sources.repo_recs(rng.choice(sources.SMALL)))
         a = part()
         b = [r.copy() if r.raw is None else r for r in a] if rng.random() < 0.25 else part()
+        if rng.random() < 0.2:
+            # a part whose iterative solver does not converge within its 10 sweeps (searched for)
+            for _ in range(40):
+                cl, cd = sources.residue_cluster(rng)
+                probe = obs.run_single(pdbio.dump(cl), write_pka=False, debug_iterative=True)
+                if not probe.exc and any("did not converge" in m for (_, _, m) in probe.logs or []):
+                    break
+            if rng.random() < 0.5:
+                a = cl
+            else:
+                b = cl
+        if rng.random() < 0.25:
+            # an incomplete residue in one part: a carboxylate without its oxygens, an amide without N ...
+            tgt = a if rng.random() < 0.5 else b
+            cands = sorted({(r.chain, r.resnum, r.icode) for r in tgt if r.raw is None and r.resn in ("ASP", "GLU", "ASN", "GLN", "HIS")})
+            if cands:
+                kill = rng.choice(cands)
+                names = {"ASP": ("OD1", "OD2"), "GLU": ("OE1", "OE2"), "ASN": ("ND2",), "GLN": ("NE2",), "HIS": ("ND1", "CE1", "NE2")}
+                tgt[:] = [r for r in tgt if r.raw is not None or (r.chain, r.resnum, r.icode) != kill or r.aname() not in names.get(r.resn, ())]
+                classes.append("part-with-incomplete-residue")
         if rng.random() < 0.4:
             # an ion in one of the parts (ions act on every titratable group within their range)
             from .. import fragments
